@@ -36,7 +36,7 @@ Theorem C19_assertion_only_if_authenticated : forall now h1 o h2 fp,
                       exists sj oj fpj rsj,
                         In (sj, oj, fpj, rsj) (trace hash verify empty_hash (init_state H now) h1 fp) /\
                         pw_auth_at H verify sj oj id (se_user se))).
-Proof. exact (assertion_only_if_authenticated H hash verify empty_hash). Qed.
+Proof. exact (assertion_only_if_authenticated H hash verify empty_hash verify_hash verify_empty). Qed.
 
 (* ... the target SP's entity ID is in the in-memory registry at that step, the
    ACS location is one of that metadata's, and it is the SP the request (or the
@@ -44,7 +44,7 @@ Proof. exact (assertion_only_if_authenticated H hash verify empty_hash). Qed.
 Theorem C19_registered_now : forall now h fp s o fpi rs r a,
   In (s, o, fpi, rs) (trace hash verify empty_hash (init_state H now) h fp) -> In r rs -> r_body r = BAssertion a ->
   registered H s o a.
-Proof. exact (registered_now H hash verify empty_hash). Qed.
+Proof. exact (registered_now H hash verify empty_hash verify_hash verify_empty). Qed.
 
 (* the identity fields of the assertion are the user's record at this very
    login (password path) or the snapshot stored in the session (cookie path) ... *)
@@ -55,18 +55,18 @@ Theorem C19_user_as_at_login : forall s o fp s' rs fp' r a,
         a_user a = u_name u /\ a_nameid a = p_email (u_prof u) /\ a_prof a = u_prof u) \/
      (parsed && nonempty (cr_user c) = false /\ exists id se, cr_cookie c = Some id /\ alookup id (sessions s) = Some se /\
         a_user a = se_user se /\ a_nameid a = se_nameid se /\ a_prof a = se_prof se)).
-Proof. exact (user_as_at_login H hash verify empty_hash). Qed.
+Proof. exact (user_as_at_login H hash verify empty_hash verify_hash verify_empty). Qed.
 
 (* ... and no operation (PutUser and DelUser included) changes a stored session *)
 Theorem C19_session_snapshot_stable : forall s o fp s' rs fp' id se se',
   ids_fresh H s -> rand s < 10 ^ 20 -> step hash verify empty_hash s o fp = (s', rs, fp') ->
   alookup id (sessions s) = Some se -> alookup id (sessions s') = Some se' -> se' = se.
-Proof. exact (step_sessions_stable H hash verify empty_hash). Qed.
+Proof. exact (step_sessions_stable H hash verify empty_hash verify_hash verify_empty). Qed.
 
 (* the invariant used above holds in every reachable state *)
 Theorem C19_invariant_reachable : forall now h fp,
   Inv H (fst (run_hist hash verify empty_hash (init_state H now) h fp)).
-Proof. intros. apply run_inv, init_inv. Qed.
+Proof. intros. apply (run_inv H hash verify empty_hash verify_hash verify_empty), init_inv. Qed.
 
 (* stored password hashes are never disclosed: the only reply that carries a
    user record (GET /users/id) carries the empty hash; no other reply body has
@@ -86,9 +86,46 @@ Proof. exact (step_one_reply H hash verify empty_hash). Qed.
 Theorem C19_faults_fail_closed : forall s o fp s' rs fp' r a,
   Inv H s -> step hash verify empty_hash s o fp = (s', rs, fp') -> In r rs -> r_body r = BAssertion a ->
   exists n, fp' = skipn n fp /\ clean n fp.
-Proof. intros s o fp s' rs fp' r a I E Hr Hb. now destruct (step_assertion H hash verify empty_hash _ _ _ _ _ _ _ _ I E Hr Hb) as (_ & _ & X). Qed.
+Proof. intros s o fp s' rs fp' r a I E Hr Hb. now destruct (step_assertion H hash verify empty_hash verify_hash verify_empty _ _ _ _ _ _ _ _ I E Hr Hb) as (_ & _ & X). Qed.
+
+(* "correct password" is exact: in every reachable state, a stored hash verifies
+   a presented password iff it is the hash made from that very password (the
+   last PUT that carried one); the empty hash of a user stored without a
+   password verifies nothing, the empty password included *)
+Theorem C19_password_exact : forall now h fp n u pw,
+  alookup n (users (fst (run_hist hash verify empty_hash (init_state H now) h fp))) = Some u ->
+  (verify (u_hash u) pw = true <-> u_hash u = hash pw).
+Proof. exact (password_exact H hash verify empty_hash verify_hash verify_empty). Qed.
 
 End C19.
+
+(* the boolean monitor of the correspondence check (auth_okb, registered_okb,
+   one reply, no hash), evaluated on the model's own replies, is true for every
+   history and every fault plan: on the implementation's replies it can be false
+   only where they differ from the model's *)
+Theorem C19_monitor_holds_of_model : forall now h fp,
+  spec_run (init_state H0 now) h fp (map obs_of_model (replies hash0 verify0 empty0 (init_state H0 now) h fp)) = true.
+Proof. intros. apply monitor_holds_of_model, init_inv. Qed.
+
+(* non-vacuity: assertions are issued (password, cookie, shortcut) and refused
+   (expired by one second, deleted session, wrong password, user without
+   password, store fault) *)
+Theorem C19_assertion_reachable_and_refused :
+  (has_assertion (last_reply (ex_setup ++ [Sso (mkrq "https://sp1/metadata" "") (Password "alice" "pw1")]) []) = true /\
+   has_assertion (last_reply (ex_setup ++ [Login (Password "alice" "pw1"); Sso (mkrq "https://sp1/metadata" "https://sp1/acs") (Cookie "S0")]) []) = true /\
+   has_assertion (last_reply (ex_setup ++ [Login (Password "alice" "pw1"); Advance 3600; Launch "x" (Cookie "S0")]) []) = true) /\
+  (has_assertion (last_reply (ex_setup ++ [Login (Password "alice" "pw1"); Advance 3601; Launch "x" (Cookie "S0")]) []) = false /\
+   has_assertion (last_reply (ex_setup ++ [Login (Password "alice" "pw1"); DelSession "S0"; Launch "x" (Cookie "S0")]) []) = false /\
+   has_assertion (last_reply (ex_setup ++ [Sso (mkrq "https://sp1/metadata" "") (Password "alice" "pw2")]) []) = false /\
+   has_assertion (last_reply (PutUser "bob" None ex_prof :: ex_setup ++ [Sso (mkrq "https://sp1/metadata" "") (Password "bob" "")]) []) = false /\
+   has_assertion (last_reply (ex_setup ++ [Sso (mkrq "https://sp1/metadata" "") (Password "alice" "pw1")]) [NoFault; NoFault; NoFault; NoFault; IOErr]) = false).
+Proof. split; [exact assertion_reachable|exact assertion_refused]. Qed.
+
+(* Known finding K3 (two service ids with one entity ID): the hypothesis
+   nodup_entity of the restart theorems cannot be dropped *)
+Theorem C19_duplicate_entity_refuted :
+  has_assertion (last_reply (k3_history false) []) = false /\ has_assertion (last_reply (k3_history true) []) = true.
+Proof. exact duplicate_entity_refuted. Qed.
 
 Print Assumptions C19_assertion_only_if_authenticated.
 Print Assumptions C19_registered_now.
@@ -98,3 +135,7 @@ Print Assumptions C19_invariant_reachable.
 Print Assumptions C19_hash_never_disclosed.
 Print Assumptions C19_one_reply.
 Print Assumptions C19_faults_fail_closed.
+Print Assumptions C19_password_exact.
+Print Assumptions C19_monitor_holds_of_model.
+Print Assumptions C19_assertion_reachable_and_refused.
+Print Assumptions C19_duplicate_entity_refuted.
